@@ -1,6 +1,7 @@
 import OrsoVerif.Lemmas.Cache
 import OrsoVerif.Lemmas.CacheLru
 import OrsoVerif.Lemmas.CacheSeq
+import OrsoVerif.Lemmas.CacheRefine
 /-!
 # C19 — Memoised functions return only results computed for the same arguments
 
@@ -19,10 +20,13 @@ theorem single_program_extracted : parseProgram Gen.Cache.singleLines = some rep
   decide
 
 /-- The LRU wrapper in the working tree has the statement order, comparison operators,
-eviction side and tuple layout that `Model/Cache.lean` was written from. -/
+eviction side and tuple layout that `Model/Cache.lean` was written from, and its dictionary key
+is the tuple of the positional arguments and the frozenset of the keyword items (so key
+equality is equality of the arguments - the model's `K` - and not, say, equality of a hash). -/
 theorem lru_program_extracted :
     Gen.Cache.lruLines = lruShape ∧ Gen.Cache.lruExpireOp = ">" ∧ Gen.Cache.singleFreshOp = "<=" ∧
-    Gen.Cache.lruPopLast = false ∧ Gen.Cache.lruResultIndex = (1, 1) := by
+    Gen.Cache.lruPopLast = false ∧ Gen.Cache.lruResultIndex = (1, 1) ∧
+    Gen.Cache.lruKeyForm = "tuple(args, frozenset(kwargs.items()))" := by
   decide
 
 /-! ## Every sequence of calls and clock advances: single-item cache
@@ -96,12 +100,50 @@ theorem lru_hit_iff_held {K : Type} [DecidableEq K] (maxSize : Nat) (valid : Opt
     · intro h; cases h
     · rintro ⟨e, he, hk⟩; exact absurd hk (hno e he)
 
-/- NOT PROVED (left out, carried by correspondence): the full refinement
-   `lru_refines_spec : lruRun m valid cost (LState.init t0) ops = specRun m valid cost (LState.init t0) ops`
-   between the statement-level machine and the declarative specification `specCall` (held =
-   unexpired entries, hit moves to the end, miss appends and keeps the `m` most recently used).
-   The driver evaluates BOTH machines on every sequential case and the harness requires them,
-   and a Python mirror of the specification, to agree (else exit 2). -/
+/-- Refinement: for every history of calls and clock advances, every `max_size`, validity and
+clock behaviour, the statement-level machine of `lru_cache_with_expiry` (expiry loop of
+`del cache[k]`, `key in cache`, `move_to_end`, insert, `popitem(last=False)` when
+`len(cache) > max_size`) produces exactly the trace, log and state of the declarative
+specification `specRun`: held = the unexpired entries (`now - time <= valid`), least recently
+used first; a call is a hit iff an entry for an equal key is held, and a hit makes it the most
+recently used; a miss invokes the function, appends the entry and keeps the last `max_size`
+(= the `max_size` most recently used). -/
+theorem lru_refines_spec {K : Type} [DecidableEq K] (maxSize : Nat) (valid : Option Int)
+    (cost : K → Int) (t0 : Int) (ops : List (Op K)) :
+    lruRun maxSize valid cost (LState.init t0) ops = specRun maxSize valid cost (LState.init t0) ops :=
+  (lruRun_eq_specRun maxSize valid cost ops (LState.init t0)
+    ⟨by intro e he; simp [LState.init] at he, by simp [LState.init]⟩).1
+
+/-- The invariants behind the refinement, for every reachable state: stored keys are unique
+and at most `max_size` entries are held. -/
+theorem lru_keys_unique_size_bounded {K : Type} [DecidableEq K] (maxSize : Nat) (valid : Option Int)
+    (cost : K → Int) (t0 : Int) (ops : List (Op K)) :
+    (∀ e ∈ (lruRun maxSize valid cost (LState.init t0) ops).1.cache,
+      ∀ e' ∈ (lruRun maxSize valid cost (LState.init t0) ops).1.cache, e.key = e'.key → e = e') ∧
+    (lruRun maxSize valid cost (LState.init t0) ops).1.cache.length ≤ maxSize := by
+  have h := lruRun_eq_specRun maxSize valid cost ops (LState.init t0)
+    ⟨by intro e he; simp [LState.init] at he, by simp [LState.init]⟩
+  rw [h.1]; exact h.2
+
+/-- What a hit means in the specification: the function is not invoked iff an unexpired entry
+for an equal key is stored (boundary `<=`). -/
+theorem spec_hit_iff_unexpired_entry {K : Type} [DecidableEq K] (maxSize : Nat) (valid : Option Int)
+    (cost : K → Int) (s : LState K) (k : K) :
+    (specCall maxSize valid cost s k).2.invoked = false ↔
+      ∃ e ∈ s.cache, e.key = k ∧ fresh valid s.now e.time = true := by
+  cases hfind : (s.cache.filter (fun e => fresh valid s.now e.time)).find? (fun e => decide (e.key = k)) with
+  | some e =>
+    have hmem := List.mem_filter.mp (List.mem_of_find?_eq_some hfind)
+    have hk : e.key = k := by simpa using List.find?_some hfind
+    simp only [specCall, hfind]
+    exact ⟨fun _ => ⟨e, hmem.1, hk, hmem.2⟩, fun _ => by trivial⟩
+  | none =>
+    simp only [specCall, hfind]
+    constructor
+    · intro h; cases h
+    · rintro ⟨e, he, hk, hf⟩
+      have := List.find?_eq_none.mp hfind e (List.mem_filter.mpr ⟨he, hf⟩)
+      simp [hk] at this
 
 /-- Non-vacuity and the LRU order: `max_size` 2, keys 1 2, hit on 1 (moves it to the end),
 insert 3 (evicts 2, the least recently used), so 1 hits and 2 misses; after 11 s all expire. -/
